@@ -294,7 +294,9 @@ func runC03(c *harness.Ctx) {
 	var delay time.Duration = -1
 	for i, p := range probes {
 		b := p.link.B
-		if p.kind == "extended" && p.accepted {
+		if p.kind == "extended" && (p.accepted || len(b.Writes) != 0) {
+			// (the answer may also fail to go out because the prober has hung up
+			// meanwhile: WrapConn then fails although the handshake was accepted)
 			// the peer did present a valid handshake; if the server happened to
 			// read exactly that much before the trailing bytes arrived it is
 			// right to answer (the garbage then kills the session, C05)
